@@ -7,7 +7,8 @@ T = lambda s: [ord(c) for c in s]  # noqa: E731
 BASES = ["http://h", "http://h/", "http://h/a", "http://h/a/", "http://h/a/b", "http://h/a//", "http://h/a%20b/c%2Fd.txt",
          "http://h/é/ü.x", "/", "/a", "/a/", "/a/b.c", "a", "a/b", "a/", "", "//h/a", "file:///x/y.tar.gz", "mailto:a/b.c",
          "http://h/a.b.c", "http://h/.hidden", "http://h/a.", "http://h/a..b", "http://h/..a", "http://h/%2E%2E.x", "http://h/a?q#f",
-         "http://h/b%2Fc/", "http://h/a+b%2B.x", "x:a/b.c", "http://h/%41.%42", "http://h/a/.b.c.d"]
+         "http://h/b%2Fc/", "http://h/a+b%2B.x", "x:a/b.c", "http://h/%41.%42", "http://h/a/.b.c.d",
+         "http://example.com/guide#top", "http://h/a/b?q=1", "http://h/a#f", "/a/b#frag", "a#f", "http://h/?q#f", "http://h#f"]
 SEG_POOL = [t for t in TOKENS if "/" not in t]
 SUFFIXES = ["", ".md", ".tar.gz", ".é", ".%41", ". x", ".+", ".a.b", ".%2F", ".x ", ".a%20b"]
 
@@ -25,6 +26,8 @@ def gen(params):
             a, b = text(rnd, 2, pool=SEG_POOL), text(rnd, 2, pool=SEG_POOL)
             if rnd.random() < 0.2:
                 a += "/"
+            if rnd.random() < 0.15:      # the same text twice (the driver then passes the same OBJECT twice)
+                b = a
             alts = [[{"op": "joinpath", "vs": [T(a), T(b)]}], [{"op": "joinpath", "vs": [T(a)]}, {"op": "joinpath", "vs": [T(b)]}],
                     [{"op": "truediv", "v": T(a.rstrip("/") + "/" + b if a.endswith("/") else a + "/" + b)}]]
             args = {"a": T(a), "b": T(b)}
